@@ -27,12 +27,15 @@ from lib.core import exc_name, idset
 from props.c07 import admissible
 
 ID = "C11"
-AUDIT_IMPORTS = ["HypatiaProofs.Properties.C11"]
+AUDIT_IMPORTS = ["HypatiaProofs.Properties.C11", "HypatiaProofs.Properties.C11Obj"]
 THEOREMS = ["Hyp.RSet." + t for t in (
     "c11_first", "c11_peeks_do_not_consume", "c11_first_idempotent", "c11_one", "c11_len_iter_all",
     "c11_resolver", "c11_no_resolver", "c11_query_result", "c11_iteration_consumes_only_streams",
     "c11_sort_len", "c11_chained_sort", "c11_chained_sort_keeps_first_order", "c11_sort_marks_stable",
-    "c11_default_sort_raises", "c11_intersect", "c11_intersect_resultset")]
+    "c11_default_sort_raises", "c11_intersect", "c11_intersect_resultset")] + \
+    ["Hyp.RSet.Obj." + t for t in (      # kept all()/iter() objects (Properties/C11Obj.lean)
+        "c11_kept_object_misses_the_id_first_found", "c11_top_object_yields_the_stream", "c11_d25_witness",
+        "c11_consume_top", "c11_consume_lower")]
 CASES = {"quick": 8000, "thorough": 200000}
 BUDGET_S = {"quick": 40, "thorough": 700}
 BATCH = 40
@@ -53,6 +56,12 @@ RULE = ("each case: 1-3 FieldIndexes over docids 0..11 (1-5 distinct values, so 
         "chains of 2-3 sorts with limits 1..25, size/k +-1 for k in 4..64, size/2, size+-1 or none, both directions "
         "(quick seed 0: 22 second sorts over >= 1024 ids with limit <= size/16, 13 with a larger limit, 21 over "
         "300-1023 ids), and direct sorts of shuffled collections with sort_type stable/timsort. "
+        "Resolvers raising KeyError for ids d % m == k: 25% of the resolver-carrying result sets (quick seed 0: "
+        "2825 result sets; first() raised 1180 times, 1160 later first() on such a result, 2130 loops ended by "
+        "KeyError). 8% of the operations: keep all()/iter() (hall/hiter), call other methods, loop afterwards "
+        "(hdrain/htake) - quick seed 0: 16094 kept objects looped over, 4399 of a one-shot ids (resolver 1753), "
+        "between taking and looping: first/one/len only 38%, a sort 14%, consuming calls 18%, nothing 19%, an earlier loop over the same object 12%; 4%: 2-3 "
+        "sorted results of one index read alternately. "
         "non-trivial = a chained sort with a tie was observed and some first() "
         "was called on a generator-backed result set before it was iterated")
 LEVEL_TEXT = ("Lean 4 theorems for both id representations (collection / one-shot stream) and every resolver: "
@@ -61,7 +70,11 @@ LEVEL_TEXT = ("Lean 4 theorems for both id representations (collection / one-sho
               "= min(count, limit) after a sort of all-sortable ids (via C07), a second sort is the stable sort "
               "of the first order by the second key, intersect = filter in order (argument result set still "
               "iterable), default-flag sort with an unsortable id raises Unsortable in the call or at the end of "
-              "iteration; tied to hypatia.util.ResultSet over real FieldIndexes by a differential run")
+              "iteration; object level (the iterator objects behind a one-shot ids): an all()/iter() object taken before a "
+              "successful first() yields afterwards the sequence without its first id, the object a _resolve_all "
+              "generator binds when its loop starts yields all of it (finding D25 with witness); tied to "
+              "hypatia.util.ResultSet over real FieldIndexes by a differential run incl. resolvers that raise and "
+              "kept all()/iter() objects")
 LEVEL_NOTE = ("trusted: Lean kernel (propext, Quot.sound, Classical.choice); C07's trusted base for the sort "
               "underneath; generators/itertools.chain/islice as modelled (a generator that raised is closed); "
               "TextIndex.sort (list result, relevance) is covered by C20, only FieldIndex sorts here; sampled "
@@ -85,6 +98,23 @@ Size- and object-kind-dependent changes (builder wt_strong4; scratch copies /var
   M11a sort(): the result is marked STABLE only when numids < 1000 (a third party's chained sort of a big result
        may pick n-best / forward scan)                                                                     caught
   M11b all(): `resolver is None` -> `not resolver`                                                         caught
+Exceptions from the resolver, kept all()/iter() objects, sorted results in flight (builder wt_strong7):
+  resolvers that RAISE KeyError for every id d with d % m == k (25% of the resolver-carrying result sets); the
+  session goes on after the exception (first/one: nothing consumed; all/iter/take: the loop of `_resolve_all` ends
+  at that id, which a one-shot `ids` has lost).  `hall s h r` / `hiter s h` only TAKE `docs = rs.all(resolve)` /
+  `it = iter(rs)`, other methods are called (first/one/len 58%, sort, take, iter, intersect, a second kept object),
+  then `hdrain h` / `htake h k` run the loop.  The driver models the iterator OBJECTS (HypatiaModel/ResultSetObj.lean:
+  the tower of chain objects first() stacks on a one-shot ids, which object a caller holds, `_resolve_all`
+  binding `self.ids` only when its body starts); the specification answers - the whole sequence - while nothing
+  but first/one/len happened since the object was taken.  FINDING D25 (unchanged tree): without a resolver (or
+  resolve=False) the kept object IS the one-shot iterator, a later first() takes its first id away from it
+  (`ResultSet((d for d in [3,1,2]),3,None)`: `docs = rs.all(); rs.first(); list(docs) == [1, 2]`); classified only
+  where the object-level model agrees with the code.  Blocks of 2-3 sorted results of one index kept unread and
+  then read alternately (4% of the operations).
+  seeded C11_G  first() calls the resolver before re-chaining the pulled id                  MISSED before, now caught
+  seeded C11_H  all() returns a generator expression (binds iter(self.ids) at the call)     MISSED before, now caught
+  seeded C18_G  scan_forward keeps one working set per index                                 caught (also before)
+  M11m  __iter__ with a resolver returns map(resolver, self.ids)                                         caught
 """
 
 POOL = list(range(12))
@@ -99,8 +129,12 @@ RESOLVERS = ["none", "none", "plus", "neg"]
 RESOLVER_KINDS = ["fn", "method", "partial", "falsy", "nolen", "memo"]
 
 
-def pick_resolver(rng):
+def pick_resolver(rng, failing=0.25):
     r = rng.choice(RESOLVERS)
+    if r != "none" and rng.random() < failing:
+        # a resolver that RAISES KeyError for every id d with d % m == k (stale docids missing from the object map)
+        m = rng.choice([2, 3, 3, 4])
+        r += "/%d/%d" % (m, rng.randrange(m))
     if r != "none" and rng.random() < 0.6:
         return r + ":" + rng.choice(RESOLVER_KINDS)
     return r
@@ -171,6 +205,8 @@ def gen_new(rng, slot):
     return ["new", slot, kind, num, pick_resolver(rng)] + ids
 
 
+HANDLE_P = 0.08       # per operation: a block "keep all()/iter(), call other methods, loop over it afterwards"
+INFLIGHT_P = 0.04     # per operation: a block of 2-3 sorted results read alternately
 BIG_EVERY = 100      # one case in BIG_EVERY is a large chained sort (see gen_big)
 BIG_SIZES = [300, 600, 1023, 1024, 1025, 1100, 1500, 1500, 2048, 3000]
 
@@ -270,12 +306,106 @@ def gen(rng, tier, idx):
             size[s] = len(cmds[-1]) - 5
         slots.append(s)
     last_sorted = None
+    nhandle = [0]
+
+    def new_sort(src, i=None, st=None, rev=None, lim=None):
+        dst = fresh()
+        cmds.append(["new", dst, "list", "auto", "none"])      # dst exists even if the sort raises
+        if lim is None:
+            lim = rng.choice(["none"] * 7 + [1, 2, 3, 5, 11, 12, 13, 100, 0])
+        if st is None:
+            st = "none" if rng.random() < 0.6 else rng.choice(STYPES)
+        cmds.append(["sort", src, dst, rng.randrange(nidx) if i is None else i,
+                     rng.randrange(2) if rev is None else rev, lim, st, 1 if rng.random() < 0.7 else 0])
+        slots.append(dst)
+        size[dst] = size.get(src, 0) if lim in ("none", 0) else min(size.get(src, 0), lim)
+        return dst
+
+    def handle_block(s):
+        """take `docs = rs.all()` / `it = iter(rs)`, call other methods, loop over the kept object afterwards"""
+        if rng.random() < 0.4:
+            s = new_sort(s, lim="none" if rng.random() < 0.7 else None)      # a lazily sorted result
+        hs = []
+
+        def take_handle():
+            h = nhandle[0]
+            nhandle[0] += 1
+            cmds.append(["hall", s, h, rng.choice([0, 1, 1, 1])] if rng.random() < 0.6 else ["hiter", s, h])
+            hs.append(h)
+        if rng.random() < 0.25:
+            cmds.append(["first", s, rng.choice([0, 1])])
+        take_handle()
+        for _ in range(rng.choice([0, 1, 1, 1, 2, 3])):
+            q = rng.random()
+            if q < 0.45:
+                cmds.append(["first", s, rng.choice([0, 1, 1])])
+            elif q < 0.53:
+                cmds.append(["one", s, rng.choice([0, 1, 1])])
+            elif q < 0.58:
+                cmds.append(["len", s])
+            elif q < 0.74:
+                new_sort(s)
+            elif q < 0.81:
+                cmds.append(["take", s, rng.choice([0, 1, 2])])
+            elif q < 0.85:
+                cmds.append(["iter", s])
+            elif q < 0.93:
+                take_handle()
+            else:
+                dst = fresh()
+                cmds.append(["new", dst, "list", "auto", "none"])
+                cmds.append(["intersect", s, dst, rng.choice(COLL_KINDS)] + rng.sample(POOL + [20], rng.randrange(0, 13)))
+                slots.append(dst)
+        rng.shuffle(hs)
+        for h in hs:
+            if rng.random() < 0.25:
+                cmds.append(["htake", h, rng.choice([0, 1, 2])])
+                if rng.random() < 0.5:
+                    cmds.append(["first", s, rng.choice([0, 1])])
+            cmds.append(["hdrain", h])
+        if rng.random() < 0.5:
+            cmds.append(["first", s, 1])
+            cmds.append(["iter", s])
+        if rng.random() < 0.15:
+            cmds.append(["hdrain", hs[0]])     # the same object once more
+
+    def inflight_block():
+        """2-3 sorted results of (mostly) the same index kept unread, then read alternately / one id first and the
+        rest after another sort / in reverse creation order"""
+        i = rng.randrange(nidx)
+        ds = []
+        same_src = pick(True) if rng.random() < 0.5 else None
+        for k in range(rng.choice([2, 2, 3])):
+            fw = rng.random() < 0.6
+            d = new_sort(same_src if same_src is not None else pick(True), i=i if rng.random() < 0.85 else None,
+                         st=rng.choice(["none", "none", "fwscan", "optimal"]) if fw else None,
+                         rev=0 if fw else None, lim="none" if rng.random() < 0.6 else None)
+            ds.append(d)
+            for _ in range(rng.choice([0, 1, 1, 2])):
+                g = rng.choice(ds)
+                cmds.append(rng.choice([["first", g, rng.choice([0, 1])], ["take", g, rng.choice([1, 1, 2, 3])]]))
+        for _ in range(rng.choice([0, 2, 4, 6])):
+            g = rng.choice(ds)
+            cmds.append(rng.choice([["first", g, 0], ["take", g, rng.choice([1, 2, 3])], ["take", g, 1]]))
+        if rng.random() < 0.5:
+            ds.reverse()
+        for g in ds:
+            cmds.append(["iter", g])
+        return ds[-1]
+
     for _ in range(rng.randrange(10, 31)):
         r = rng.random()
         s = pick(rng.random() < 0.7)
         if last_sorted is not None and rng.random() < 0.3:
             s = last_sorted
         res = rng.choice([0, 1, 1])
+        if r < HANDLE_P:
+            handle_block(s)
+            continue
+        if r < HANDLE_P + INFLIGHT_P:
+            last_sorted = inflight_block()
+            continue
+        r = (r - HANDLE_P - INFLIGHT_P) / (1 - HANDLE_P - INFLIGHT_P)
         if r < 0.20:
             cmds.append(["first", s, res])
         elif r < 0.30:
@@ -349,6 +479,7 @@ class Impl(object):
         self.FieldIndex = FieldIndex
         self.idx = {}
         self.slots = {}
+        self.handles = {}
 
     def index(self, i):
         if i not in self.idx:
@@ -358,12 +489,21 @@ class Impl(object):
     def resolver(self, name):
         import functools
         fname, _, kind = str(name).partition(":")
+        fname, _, stale = fname.partition("/")
         if fname == "plus":
-            f = lambda d: Obj(d + 1000)
+            g = lambda d: Obj(d + 1000)
         elif fname == "neg":
-            f = lambda d: Obj(-d - 1)
+            g = lambda d: Obj(-d - 1)
         else:
             return None
+        f = g
+        if stale:
+            m, k = (int(x) for x in stale.split("/"))
+
+            def f(d):
+                if d % m == k:
+                    raise KeyError(d)       # the object map no longer has this docid
+                return g(d)
         if kind == "":
             return f
         if kind == "fn":
@@ -428,6 +568,8 @@ class Impl(object):
                 out.append(show(x))
         except Unsortable as e:
             return "[%s] err Unsortable %s" % (" ".join(out), idset(set(e.docids)))
+        except Exception as e:      # the resolver's own error: the loop ends there
+            return "[%s] %s" % (" ".join(out), exc_name(e))
         return "[%s] ok" % " ".join(out)
 
     def err(self, e):
@@ -466,7 +608,18 @@ class Impl(object):
             res = self.resolver(c[3])
             self.slots[c[1]] = q.execute(resolver=res) if res is not None else q.execute()
             return "ok"
+        if op == "hdrain":
+            return self.drain(self.handles[c[1]])
+        if op == "htake":
+            return self.drain(itertools.islice(self.handles[c[1]], c[2]))
         rs = self.slots[c[1]]
+        if op == "hall":
+            # only taken here, looped over later
+            self.handles[c[2]] = rs.all(resolve=False) if not c[3] else rs.all()
+            return "ok"
+        if op == "hiter":
+            self.handles[c[2]] = iter(rs)
+            return "ok"
         try:
             if op == "first":
                 return show(rs.first(resolve=bool(c[2])) if not c[2] else rs.first())
@@ -540,6 +693,15 @@ def resolver_kind(tok):
     return "none" if fname == "none" else (kind or "lambda")
 
 
+def classify(case, i, impl, model, spec):
+    """D25: the object all()/iter() handed out IS the one-shot `ids` (no resolver / resolve=False); first() pulls
+    from it and re-chains only its own `ids`.  The model mirrors the code (I = M); the property's answer is the
+    whole sequence."""
+    if case["cmds"][i][0] == "hdrain" and impl == model and impl != spec:
+        return "D25"
+    return None
+
+
 def nontrivial(case, outs):
     sorted_slots = {}
     chained_tie = False
@@ -563,10 +725,38 @@ def features(case, outs):
     nix = sum(1 for c in case["cmds"] if c[0] == "ix")
     if nix > 200:
         f.append("mode:big")
+    hslot = {}          # handle -> [slot, how taken, what happened to the slot since]
+    failing = {}        # slot -> the resolver raises for some ids
     for c, o in zip(case["cmds"], outs):
         op = c[0]
         if op == "ix":
             continue
+        if op in ("hall", "hiter"):
+            how = "iter" if op == "hiter" else "all" if c[3] else "all(resolve=False)"
+            hslot[c[2]] = [c[1], how + ("/resolver" if rkind.get(c[1], "none") != "none" and how != "all(resolve=False)"
+                                         else "/ids"), kinds.get(c[1], "?"), []]
+            continue
+        if op in ("hdrain", "htake"):
+            h = hslot.get(c[1])
+            if h is not None and op == "hdrain":
+                b = set(h[3])
+                between = "nothing" if not b else "first/one/len-only" if b <= {"first", "one", "len"} else \
+                    "a-loop-over-it-already" if "loop" in b else "sort(+peeks)" if b <= {"first", "one", "len", "sort"} \
+                    else "consuming-calls"
+                f.append("handle:%s/%s/between:%s" % (h[1], h[2].replace("-used", ""), between))
+                f.append("handle:%s/%s" % (h[1], h[2].replace("-used", "")))
+                if "KeyError" in o:
+                    f.append("handle:loop-ended-by-KeyError")
+                h[3].append("loop")
+            continue
+        for h in hslot.values():
+            if h[0] == c[1] and op in ("first", "one", "len", "sort", "take", "iter", "all", "intersect"):
+                h[3].append(op)
+        if op in ("first", "one", "iter", "all", "take") and "KeyError" in o:
+            f.append("%s/%s/raised-KeyError" % (op, kinds.get(c[1], "?")))
+            failing[c[1]] = failing.get(c[1], 0) + 1
+        elif op in ("first", "one", "iter", "all", "take") and failing.get(c[1]):
+            f.append("%s/%s/after-a-KeyError-on-this-result" % (op, kinds.get(c[1], "?")))
         if op == "new":
             kinds[c[1]] = "stream" if c[2] in STREAM_KINDS else "coll"
             sizes[c[1]] = len(c) - 5
@@ -574,6 +764,8 @@ def features(case, outs):
             if len(c) > 5 or c[2] != "list":
                 f.append("new:%s%s" % (c[2], "/wrong-numids" if c[3] != "auto" else ""))
                 f.append("resolver:" + rkind[c[1]])
+                if "/" in str(c[4]):
+                    f.append("resolver:raises-for-some-ids")
             continue
         if op == "query":
             kinds[c[1]] = "coll"
@@ -632,4 +824,5 @@ def features(case, outs):
 
 
 def witnesses():
-    return []
+    return [("D25", {"session": "resultset", "cfg": [], "cmds": [
+        ["new", 0, "gen", "auto", "none", 3, 1, 2], ["hall", 0, 0, 1], ["first", 0, 1], ["hdrain", 0]]})]
